@@ -553,9 +553,66 @@ Definition mk_field_s (names : list (name * name)) (e : name * (gotype * bool)) 
   let n := gname names k in
   (n, (if dash then TagDash else if negb (equal_fold n (untk k)) then TagKey (untk k) else TagNone), t).
 
+(** *** names of the declarations (fix "an enum named like a generated type, a reserved identifier or
+    another enum's constant"): before anything is generated, the <Op>Data and <F>Fragment names of
+    the document are reserved together with the identifiers the generated code itself uses; then
+    every enum type of the schema, then every enum constant gets its usual name, with "_" appended
+    while that name is taken ([declare], [assignEnumNames]).  Deviation of form: the Go code visits
+    enums and values in sorted order, the model in schema order - which of two clashing
+    declarations keeps the plain name is not an observable of the property. *)
+Definition reserved_identifiers : list name :=
+  go_keywords ++ map bs ["string"; "int"; "float64"; "bool"; "byte"; "error"; "nil"; "s"; "b"; "_"; "json"]%string.
+
+Definition const_suffix (v : name) : name := List.concat (map (fun p => title (lower_bytes p)) (split_us v [])).
+
+Definition doc_decl_names (d : document) : list name :=
+  flat_map (fun o => match op_name o with Some n => [data_type_name n] | None => [] end) (d_ops d) ++
+  map (fun f => frag_type_name (fr_name f)) (d_frags d).
+
+Definition schema_enums (S : schema) : list (name * list name) :=
+  flat_map (fun t => match t with DEnum n vs => [(n, vs)] | _ => [] end) (s_types S).
+
+Fixpoint assign_gen {K} (base : K -> name) (keys : list K) (taken : list name) (acc : list (K * name))
+  : list (K * name) * list name :=
+  match keys with
+  | [] => (acc, taken)
+  | k :: r =>
+      let n := fresh (Datatypes.S (List.length taken)) taken (base k) in
+      assign_gen base r (n :: taken) (acc ++ [(k, n)])
+  end.
+
+Fixpoint assoc2 (k1 k2 : name) (l : list ((name * name) * name)) : option name :=
+  match l with
+  | [] => None
+  | ((a, b), v) :: r => if bytes_eqb a k1 && bytes_eqb b k2 then Some v else assoc2 k1 k2 r
+  end.
+
+Definition enum_name_map (S : schema) (d : document) : list (name * name) * list name :=
+  assign_gen (fun n : name => n) (map fst (schema_enums S)) (reserved_identifiers ++ doc_decl_names d) [].
+
+Definition enum_go_name (S : schema) (d : document) (n : name) : name :=
+  match assoc n (fst (enum_name_map S d)) with Some x => x | None => n end.
+
+Definition const_name_map (S : schema) (d : document) : list ((name * name) * name) :=
+  fst (assign_gen (fun nv : name * name => enum_go_name S d (fst nv) ++ const_suffix (snd nv))
+                  (flat_map (fun e : name * list name => map (fun v => (fst e, v)) (snd e)) (schema_enums S))
+                  (snd (enum_name_map S d)) []).
+
+Definition const_go_name (S : schema) (d : document) (n v : name) : name :=
+  match assoc2 n v (const_name_map S d) with Some x => x | None => enum_go_name S d n ++ const_suffix v end.
+
 Section GenS.
   Variable S : schema.
   Variable fragTypes : list (name * name).
+  Variable en : name -> name.                 (* Go name of an enum type *)
+  Variable cn : name -> name -> name.         (* Go name of the constant of an enum value *)
+
+  Definition emit_enum_s (n : name) (vs : list name) (st : gstate) : gstate :=
+    match assoc (en n) (g_enums st) with
+    | Some _ => st
+    | None => {| g_enums := g_enums st ++ [(en n, map (fun v => (cn n v, v)) vs)];
+                 g_count := g_count st; g_json := g_json st |}
+    end.
 
   Definition step_s (rec : rec_t) (tName : name) (d : typedef) (hasTn : bool) (all : list selection)
              (sel : selection) (a : acc) : outcome acc :=
@@ -644,7 +701,7 @@ Section GenS.
         match lookup_type S n with
         | None => Ok (GIface, false, st)
         | Some (DScalar _) => Ok (GScalar n, true, st)
-        | Some (DEnum _ vs) => Ok (GEnum n, true, emit_enum n vs st)
+        | Some (DEnum _ vs) => Ok (GEnum (en n), true, emit_enum_s n vs st)
         | Some d => gen_composite_s rec n d sels st
         end
     end.
@@ -682,7 +739,7 @@ Definition generate_raw_s (S : schema) (valid : bool) (d : document) : gen_resul
   if negb valid then GRejected
   else
     let fragTypes := map (fun f => (fr_name f, fr_cond f)) (d_frags d) in
-    match process_defs_s S fragTypes (Datatypes.S (doc_size d)) (defs_of S d)
+    match process_defs_s S fragTypes (enum_go_name S d) (const_go_name S d) (Datatypes.S (doc_size d)) (defs_of S d)
                          {| g_enums := []; g_count := 0; g_json := false |} [] false with
     | Ok (st, out, errored) =>
         if errored then GError
